@@ -69,11 +69,17 @@ meta("C02", level="exploration",
      min_evaluations=10000, must_observe={"value_fields_checked": 10000, "rejections_checked": 50, "rates_checked": 100})
 
 
+def c02_macro_jobs(bindir, tier, seed):
+    # the macro call form: the same numerals must reach the wire through statsd_*! (reference formatter on the macro's line)
+    n = 6 if tier == QUICK else 100
+    return [Job("C02-macro-%d" % i, [B(bindir, "macro_driver"), "--cfg-seed", str(seed * 7919 + i), "--rounds", "6" if tier == QUICK else "20", "--report-as", "C02", "--out", "{out}"], 900) for i in range(n)]
+
+
 @plan("C02")
 def _c02(bindir, tier, seed):
     if tier == QUICK:
-        return shards(bindir, "fmt_driver", "C02", seed, NCPU, ["--mode", "c02", "--cases", "40000"], 600)
-    jobs = shards(bindir, "fmt_driver", "C02", seed, NCPU, ["--mode", "c02", "--cases", "400000"], 1800)
+        return shards(bindir, "fmt_driver", "C02", seed, NCPU, ["--mode", "c02", "--cases", "40000"], 600) + c02_macro_jobs(bindir, tier, seed)
+    jobs = shards(bindir, "fmt_driver", "C02", seed, NCPU, ["--mode", "c02", "--cases", "400000"], 1800) + c02_macro_jobs(bindir, tier, seed)
     # exhaustive 32-bit sweeps, 32 slices each
     n = 32
     for ty, lo, hi in (("i32", -2**31, 2**31 - 1), ("u32", 0, 2**32 - 1)):
@@ -131,7 +137,7 @@ FRAME_ASSUME = ["the underlying writer is all-or-nothing (datagram semantics) an
 FRAME_RULE = ("real MultiLineWriter / buffered sinks run against a model of pending lines (FIFO of metric++terminator, fill counter); every "
               "underlying write attempt and every result is validated. Workloads: (1) W1 small-scope enumeration on cadence::ext::MultiLineWriter"
               "<ScriptedWriter>: all capacities 0..=C, terminators \\n, \\r\\n, empty, EVERY op sequence of length <= L over {emit(len 0..=cap+2), flush} "
-              "+ drop; (2) W1 random long histories (capacity <= 1500, 10-2000 ops, lengths biased to exact-fit / one-short / one-over / oversize); "
+              "+ drop; (2) W1 random long histories (capacity <= 1500, 10-2000 ops, lengths biased to exact-fit / one-short / one-over / oversize) and big-capacity histories (8191..200000, around std's 8 KiB BufWriter default and the 64 KiB mark: thousands of short metrics until the buffer has wrapped, single metrics at the power-of-two marks and just below the capacity); "
               "(3) W2 BufferedSpyMetricSink observed at its channel, incl. default capacity; (4) W5 flush through StatsdClient::flush and "
               "QueuingMetricSink::flush; (5) W3/W4 buffered UDP/Unix sinks observed at an interposed sendto (sock_driver). distinct = outcome signatures "
               "(buffered / pre-flush / bypass / exact-fill write / flush-write / failed-... per call) x capacity class x terminator; whole signature for "
@@ -150,6 +156,7 @@ def frame_jobs(bindir, prop, tier, seed, faults):
     base = ["--property", prop, "--faults", f]
     jobs += shards(bindir, "frame_driver", prop + "-enum", seed, NCPU, base + ["--mode", "enum"] + en, 3000)
     jobs += shards(bindir, "frame_driver", prop + "-random", seed, NCPU, base + ["--mode", "random", "--cases", str(rnd)], 3000)
+    jobs += shards(bindir, "frame_driver", prop + "-big", seed, 8, base + ["--mode", "random-big", "--cases", "12" if tier == QUICK else "400"], 3000)
     jobs += shards(bindir, "frame_driver", prop + "-spy", seed, 8, base + ["--mode", "spy", "--cases", str(spy)], 3000)
     if not faults:
         jobs += shards(bindir, "frame_driver", prop + "-delegate", seed, 8, base + ["--mode", "delegate", "--cases", str(dele)], 3000)
@@ -442,13 +449,13 @@ def _c18(bindir, tier, seed):
 # ---- C17 ---------------------------------------------------------------------------------------------------
 meta("C17", level="exploration",
      rule="one fresh process per global-client configuration (prefix class x default tags x default container x sink behaviour accept/refuse/alternate x handler present x UNSET); inside, "
-          "all 7 macros x all 22 accepted value types x tag arities 0,1,2,3,6 with run-time random strings; every argument is a block expression bumping its own counter. Oracle: "
+          "all 7 macros x all 22 accepted value types x tag arities 0,1,2,3,6 with run-time random strings; every argument is a block expression bumping its own counter and taking an order stamp (arguments must be evaluated once each, in the order key, value, tag pairs left to right, as the explicit chain does); a macro used from inside the client's own error handler must send. Oracle: "
           "differential against the explicit chain get_global_default().unwrap().<kind>_with_tags(k, v).with_tag(..)...send() run back to back on the same client (same line, one emit each, "
           "same handler traffic), the reference formatter of C01 with the client's defaults, every argument evaluated exactly once, failures only in the handler log (same error), panic iff "
           "no client set - including macros tried BEFORE the set on the main thread and on another thread (they must panic, and the same threads must work after the set), and macros on threads "
           "spawned after the set -, a second set_global_default is ignored. distinct = (macro, value type, tag arity, sink behaviour, handler, set/unset)",
      assumptions=["tag arities above 6 are not driven (the macro repetition is uniform)", "the global can be set once per process, hence one process per configuration"],
-     min_evaluations=2000, must_observe={"macro_vs_chain_pairs_equal": 1500, "argument_evaluations_checked": 5000, "unset_macros_panicked": 100, "handler_deliveries_checked": 100, "second_set_ignored_checks": 4, "threads_that_tried_a_macro_before_set": 4, "macros_on_fresh_threads": 4})
+     min_evaluations=2000, must_observe={"macro_vs_chain_pairs_equal": 1500, "argument_evaluations_checked": 5000, "unset_macros_panicked": 100, "handler_deliveries_checked": 100, "second_set_ignored_checks": 4, "threads_that_tried_a_macro_before_set": 4, "macros_on_fresh_threads": 4, "argument_order_checks": 1000, "macro_inside_handler_checks": 4})
 
 
 @plan("C17")
@@ -465,6 +472,8 @@ def _c17(bindir, tier, seed):
             argv += ["--unset"]
         elif i % 2 == 0:
             argv += ["--late-set"]
+        if i % 4 != 3 and i % 6 != 5:
+            argv += ["--reentrant-handler"]
         jobs.append(Job("C17-macro-%d" % i, argv, 600))
     return jobs
 
@@ -507,10 +516,10 @@ meta("C14", level="exploration",
      rule="all four socket sinks; at every quiescent point (all emitting threads joined, and behind a QueuingMetricSink the queue drained) stats() is compared with totals computed from the "
           "interposer log restricted to the sink's socket: packets_sent + packets_dropped == send attempts, packets/bytes sent == accepted datagrams and their sizes, packets/bytes dropped == "
           "refused ones; for the unbuffered sinks also == counts/lengths of Ok/Err emits; identical figures through the queuing wrapper. Faults: EVERY accept/refuse pattern of length <= L "
-          "(L=6 quick, 10 thorough) per sink kind, random per-call failures (5-70%) with 1-16 concurrently emitting threads, kernel EMSGSIZE. distinct = (sink, #threads, through queue, refusal class, pattern)",
+          "(L=6 quick, 10 thorough) per sink kind, random per-call failures (5-70%) with 1-16 concurrently emitting threads, kernel EMSGSIZE, empty metric strings (an unbuffered sink sends an empty datagram), all four ways of building the queuing wrapper; contention runs: 4-16 threads x 8-30 k emits on ONE unbuffered sink while every send fails in a lock-free fast path of the interposer, so that only the sink's own counters are contended. distinct = (sink, #threads, through queue, refusal class, pattern)",
      assumptions=SOCK_ASSUME, exhaustive_scope="all accept/refuse patterns of the underlying sendto up to the stated length, per sink kind, single emitter (the concurrent part is sampled)",
      min_evaluations=100,
-     must_observe={"quiescent_stat_comparisons": 100, "refused_datagrams_observed": 500, "comparisons_with_concurrent_emitters": 20, "comparisons_through_queuing_sink": 20, "kernel_refusals_observed": 5})
+     must_observe={"quiescent_stat_comparisons": 100, "refused_datagrams_observed": 500, "comparisons_with_concurrent_emitters": 20, "comparisons_through_queuing_sink": 20, "kernel_refusals_observed": 5, "contention_runs": 3, "contended_updates": 100000})
 
 
 @plan("C13")
@@ -529,6 +538,8 @@ def _c14(bindir, tier, seed):
     q = tier == QUICK
     jobs = shards(bindir, "sock_driver", "C14-enum", seed, 8, ["--property", "C14", "--mode", "stats-enum", "--maxlen", "7" if q else "10"], 3000)
     jobs += shards(bindir, "sock_driver", "C14-stats", seed, 8, ["--property", "C14", "--mode", "stats", "--cases", "120" if q else "1500"], 3000)
+    # one process at a time: the contention runs need the cores for themselves
+    jobs += shards(bindir, "sock_driver", "C14-contention", seed, 1, ["--property", "C14", "--mode", "contention", "--cases", "6" if q else "200"], 3000)
     if not q:
         jobs.append(strace_job("C14-strace-stats", "C14", bindir, ["--property", "C14", "--mode", "stats", "--seed", str(seed + 7), "--shard", "90", "--shards", "1", "--cases", "60"], 3000))
     return jobs
